@@ -139,3 +139,358 @@ Proof.
   - eapply required_size_scmp_sound; eauto.
   - eapply required_size_scmp_msg_sound; eauto.
 Qed.
+
+(** * constructors never reach a Panic: every read happens inside bytes already checked *)
+Lemma index_range_ok v lo hi : lo <= hi -> hi <= blen v -> index_range v lo hi = Ok (sub v lo hi).
+Proof.
+  intros H1 H2. unfold index_range. destruct (lo <=? hi) eqn:A; [|lia]. destruct (hi <=? blen v) eqn:B; [|lia]. reflexivity.
+Qed.
+Lemma get_unchecked_ok v lo hi : lo <= hi -> hi <= blen v -> get_unchecked v lo hi = Ok (sub v lo hi).
+Proof.
+  intros H1 H2. unfold get_unchecked. destruct (lo <=? hi) eqn:A; [|lia]. destruct (hi <=? blen v) eqn:B; [|lia]. reflexivity.
+Qed.
+
+Ltac closed_le := apply N.leb_le; vm_compute; reflexivity.
+Ltac rd_side :=
+  first [ closed_le
+        | match goal with H : blen ?v = _ |- _ <= blen ?v => rewrite H; closed_le end ].
+Ltac finish_np :=
+  repeat match goal with
+  | |- is_panic (if ?c then _ else _) = false => destruct c
+  | |- is_panic (obind (if ?c then _ else _) _) = false => destruct c
+  | |- is_panic (obind (Ok _) _) = false => cbn [obind]
+  | |- is_panic (obind (Err _) _) = false => reflexivity
+  end; try reflexivity.
+
+Lemma header_layout_np b : is_panic (header_layout b) = false.
+Proof.
+  unfold header_layout.
+  destruct (split_off_checked b CommonHeader_SIZE_BYTES) as [cb|] eqn:S; [|reflexivity].
+  apply split_off_some in S. destruct S as (_ & Hb & Hc).
+  rewrite (rd_ok cb CommonHeader_VERSION_RNG) by rd_side. cbn [obind].
+  destruct (negb _); [reflexivity|].
+  rewrite (rd_ok cb CommonHeader_PATH_TYPE_RNG) by rd_side. cbn [obind].
+  rewrite (rd_ok cb CommonHeader_SRC_ADDR_INFO_RNG) by rd_side. cbn [obind].
+  rewrite (rd_ok cb CommonHeader_DST_ADDR_INFO_RNG) by rd_side. cbn [obind].
+  rewrite (rd_ok cb CommonHeader_HEADER_LEN_RNG) by rd_side. cbn [obind].
+  rewrite (rd_ok cb CommonHeader_PAYLOAD_LEN_RNG) by rd_side. cbn [obind].
+  match goal with |- is_panic (if blen b <? ?a then _ else _) = false => destruct (blen b <? a) eqn:C; [reflexivity|] end.
+  apply N.ltb_ge in C.
+  match goal with |- is_panic (obind (if ?c then _ else _) _) = false => destruct c end.
+  - rewrite index_range_ok by lia. cbn [obind].
+    match goal with |- context [split_off_checked ?r ?n] => destruct (split_off_checked r n) as [mb|] eqn:S2 end; [|reflexivity].
+    apply split_off_some in S2. destruct S2 as (_ & _ & Hm).
+    rewrite (rd_ok mb StdPathMeta_SEG0_LEN_RNG) by rd_side. cbn [obind].
+    rewrite (rd_ok mb StdPathMeta_SEG1_LEN_RNG) by rd_side. cbn [obind].
+    rewrite (rd_ok mb StdPathMeta_SEG2_LEN_RNG) by rd_side. cbn [obind].
+    finish_np.
+  - finish_np.
+Qed.
+
+Lemma is_panic_bind_ok {A B} (x : res A) (f : A -> B) : is_panic (obind x (fun a => Ok (f a))) = is_panic x.
+Proof. destruct x; reflexivity. Qed.
+
+Lemma required_size_stdpath_np b : is_panic (required_size_stdpath b) = false.
+Proof.
+  unfold required_size_stdpath.
+  destruct (split_off_checked b StdPathMeta_SIZE_BYTES) as [mb|] eqn:S; [|reflexivity].
+  apply split_off_some in S. destruct S as (_ & _ & Hm).
+  rewrite (rd_ok mb StdPathMeta_SEG0_LEN_RNG) by rd_side. cbn [obind].
+  rewrite (rd_ok mb StdPathMeta_SEG1_LEN_RNG) by rd_side. cbn [obind].
+  rewrite (rd_ok mb StdPathMeta_SEG2_LEN_RNG) by rd_side. cbn [obind].
+  finish_np.
+Qed.
+
+Lemma required_size_udp_np b : is_panic (required_size_udp b) = false.
+Proof.
+  unfold required_size_udp. destruct (blen b <? UdpDatagram_HEADER_SIZE_BYTES) eqn:C; [reflexivity|].
+  apply N.ltb_ge in C. unfold UdpDatagram_HEADER_SIZE_BYTES in C.
+  rewrite (rd_ok b UdpDatagram_LENGTH_RNG) by (first [closed_le | (change (byte_hi UdpDatagram_LENGTH_RNG) with 6; lia)]).
+  cbn [obind]. finish_np.
+Qed.
+
+Lemma required_size_scmp_msg_np ty b : is_panic (required_size_scmp_msg ty b) = false.
+Proof. unfold required_size_scmp_msg. finish_np. Qed.
+
+Lemma required_size_scmp_np b : is_panic (required_size_scmp b) = false.
+Proof.
+  unfold required_size_scmp.
+  destruct (required_size_scmp_msg 256 b) as [n|e|s] eqn:E.
+  - unfold required_size_scmp_msg in E.
+    destruct (blen b <? scmp_header_size 256) eqn:C; [discriminate|]. apply N.ltb_ge in C.
+    change (scmp_header_size 256) with 8 in C. change (scmp_fixed_size 256) with false in E. inversion E; subst n.
+    rewrite get_unchecked_ok by lia. cbn [obind].
+    rewrite (rd_ok _ ScmpUnknownMessage_TYPE_RNG).
+    + cbn [obind]. apply required_size_scmp_msg_np.
+    + closed_le.
+    + rewrite blen_sub by lia. change (byte_hi ScmpUnknownMessage_TYPE_RNG) with 1. lia.
+  - destruct e; reflexivity.
+  - pose proof (required_size_scmp_msg_np 256 b) as H. rewrite E in H. discriminate.
+Qed.
+
+(** reading a field of the first [n] bytes = reading it from the whole buffer *)
+Lemma sub_sub_prefix b n lo hi : hi <= n -> sub (sub b 0 n) lo hi = sub b lo hi.
+Proof.
+  intros H. unfold sub. rewrite N.sub_0_r. cbn [skipn N.to_nat].
+  replace (N.to_nat 0) with 0%nat by reflexivity. cbn [skipn].
+  rewrite skipn_firstn_comm, firstn_firstn. f_equal. lia.
+Qed.
+
+Lemma rd_prefix b n r bits : byte_hi r <= n -> n <= blen b -> rd (sub b 0 n) r bits = rd b r bits.
+Proof.
+  intros H1 H2. unfold rd. destruct (negb (size_bytes r <=? LANE_BYTES)); [reflexivity|].
+  rewrite blen_sub by exact H2. rewrite N.sub_0_r.
+  destruct (byte_hi r <=? n) eqn:A; [|lia]. destruct (byte_hi r <=? blen b) eqn:B; [|lia].
+  cbn [negb]. f_equal. f_equal. apply lane_read_local. apply sub_sub_prefix. exact H1.
+Qed.
+
+(** the payload accessor on a buffer whose header layout was accepted *)
+Lemma header_layout_fields b l :
+  header_layout b = Ok l ->
+  rd b CommonHeader_HEADER_LEN_RNG 8 = Ok (hl_header_len l / 4) /\ hl_header_len l mod 4 = 0
+  /\ rd b CommonHeader_PAYLOAD_LEN_RNG 16 = Ok (hl_payload_len l).
+Proof.
+  unfold header_layout. intros H.
+  destruct (split_off_checked b CommonHeader_SIZE_BYTES) as [cb|] eqn:S; [|discriminate].
+  apply split_off_some in S. destruct S as (-> & Hb & Hc).
+  inv_bind H. inversion H; subst; clear H. cbn [hl_header_len hl_payload_len].
+  repeat match goal with
+  | E : rd (sub b 0 _) _ _ = _ |- _ => rewrite rd_prefix in E by (first [exact Hb | closed_le])
+  end.
+  repeat match goal with
+  | E : rd b CommonHeader_HEADER_LEN_RNG 8 = Ok _ |- _ => rewrite E; clear E
+  | E : rd b CommonHeader_PAYLOAD_LEN_RNG 16 = Ok _ |- _ => rewrite E; clear E
+  end.
+  refine (conj _ (conj _ eq_refl)); [f_equal|]; lia.
+Qed.
+
+Lemma pkt_payload_range_ok b l :
+  header_layout b = Ok l ->
+  pkt_payload_range b = Ok (hl_header_len l, hl_header_len l + N.min (hl_payload_len l) (blen b - hl_header_len l)).
+Proof.
+  intros H. destruct (header_layout_fields b l H) as (Eh & Hm & Ep).
+  destruct (header_layout_sound b l H) as [Hle H12].
+  unfold pkt_payload_range. rewrite Eh. cbn [obind].
+  replace (hl_header_len l / 4 * 4) with (hl_header_len l) by lia.
+  rewrite get_unchecked_ok by lia. cbn [obind].
+  rewrite rd_prefix by (first [exact Hle | (change (byte_hi CommonHeader_PAYLOAD_LEN_RNG) with 8; unfold CommonHeader_SIZE_BYTES in H12; lia)]).
+  rewrite Ep. cbn [obind].
+  rewrite get_unchecked_ok by lia. reflexivity.
+Qed.
+
+Lemma required_size_np k b : is_panic (required_size k b) = false.
+Proof.
+  destruct k; cbn [required_size].
+  - unfold required_size_header. rewrite is_panic_bind_ok. apply header_layout_np.
+  - apply required_size_stdpath_np.
+  - unfold required_size_onehop, fixed_size. finish_np.
+  - unfold required_size_info, fixed_size. finish_np.
+  - unfold required_size_hop, fixed_size. finish_np.
+  - unfold required_size_raw. rewrite is_panic_bind_ok. apply header_layout_np.
+  - unfold required_size_udp_pkt, required_size_raw.
+    destruct (header_layout b) as [l|e|s] eqn:E; cbn [obind]; [|reflexivity|pose proof (header_layout_np b) as H; rewrite E in H; discriminate].
+    unfold pkt_payload. rewrite (pkt_payload_range_ok b l E). cbn [obind fst snd].
+    pose proof (required_size_udp_np (sub b (hl_header_len l) (hl_header_len l + N.min (hl_payload_len l) (blen b - hl_header_len l)))) as P.
+    destruct (required_size_udp _); [reflexivity|reflexivity|discriminate].
+  - unfold required_size_scmp_pkt, required_size_raw.
+    destruct (header_layout b) as [l|e|s] eqn:E; cbn [obind]; [|reflexivity|pose proof (header_layout_np b) as H; rewrite E in H; discriminate].
+    unfold pkt_payload. rewrite (pkt_payload_range_ok b l E). cbn [obind fst snd].
+    pose proof (required_size_scmp_np (sub b (hl_header_len l) (hl_header_len l + N.min (hl_payload_len l) (blen b - hl_header_len l)))) as P.
+    destruct (required_size_scmp _); [reflexivity|reflexivity|discriminate].
+  - apply required_size_udp_np.
+  - apply required_size_scmp_np.
+  - apply required_size_scmp_msg_np.
+Qed.
+
+Lemma try_from_slice_np k b : is_panic (try_from_slice k b) = false.
+Proof.
+  unfold try_from_slice. pose proof (required_size_np k b) as P.
+  destruct (required_size k b) as [n|e|s] eqn:E; cbn [obind]; [|reflexivity|discriminate].
+  pose proof (required_size_sound_all k b n E) as L.
+  destruct (blen b <? n) eqn:C; [lia|reflexivity].
+Qed.
+
+(** * fixed-offset accessors stay inside the view *)
+Definition min_size (k : vkind) : N :=
+  match k with
+  | KHeader => 28 | KStdPath => 4 | KInfo => 8 | KHop => 12 | KUdp => 8 | KScmp => 8 | KOneHop => 32
+  | KScmpMsg ty => scmp_header_size ty
+  | _ => 28
+  end.
+
+Lemma addr_hdr_size_ge s d : 16 <= addr_hdr_size s d.
+Proof. unfold addr_hdr_size, AddressHeader_FIXED_SIZE_BITS. lia. Qed.
+
+Lemma header_layout_min b l : header_layout b = Ok l -> 28 <= hl_header_len l.
+Proof.
+  unfold header_layout. intros H. inv_bind H. inversion H; subst; clear H. cbn [hl_header_len]. clean_bools.
+  match goal with Q : _ = ?x * 4 |- _ <= ?x * 4 => rewrite <- Q end.
+  match goal with |- _ <= _ + addr_hdr_size ?s ?d + _ => pose proof (addr_hdr_size_ge s d) end.
+  unfold CommonHeader_SIZE_BYTES. lia.
+Qed.
+
+Lemma required_size_min k b n : required_size k b = Ok n -> min_size k <= n.
+Proof.
+  destruct k; cbn [required_size min_size]; intros H.
+  - unfold required_size_header in H. inv_bind H. inversion H; subst. eapply header_layout_min; eauto.
+  - unfold required_size_stdpath in H. inv_bind H. inversion H; subst. unfold StdPathMeta_SIZE_BYTES. lia.
+  - unfold required_size_onehop, fixed_size in H. inv_bind H. inversion H; subst. vm_compute. discriminate.
+  - unfold required_size_info, fixed_size in H. inv_bind H. inversion H; subst. vm_compute. discriminate.
+  - unfold required_size_hop, fixed_size in H. inv_bind H. inversion H; subst. vm_compute. discriminate.
+  - unfold required_size_raw in H. inv_bind H. inversion H; subst.
+    pose proof (header_layout_min _ _ E). pose proof (header_layout_sound _ _ E). lia.
+  - unfold required_size_udp_pkt in H. destruct (required_size_raw b) as [m|e|s] eqn:R; cbn [obind] in H; try discriminate H.
+    inv_bind H. inversion H; subst n.
+    unfold required_size_raw in R. destruct (header_layout b) as [l|e|s] eqn:HL; cbn [obind] in R; try discriminate R.
+    inversion R; subst m.
+    pose proof (header_layout_min _ _ HL). pose proof (header_layout_sound _ _ HL). lia.
+  - unfold required_size_scmp_pkt in H. destruct (required_size_raw b) as [m|e|s] eqn:R; cbn [obind] in H; try discriminate H.
+    inv_bind H. inversion H; subst n.
+    unfold required_size_raw in R. destruct (header_layout b) as [l|e|s] eqn:HL; cbn [obind] in R; try discriminate R.
+    inversion R; subst m.
+    pose proof (header_layout_min _ _ HL). pose proof (header_layout_sound _ _ HL). lia.
+  - unfold required_size_udp in H. inv_bind H. inversion H; subst. clean_bools. unfold UdpDatagram_HEADER_SIZE_BYTES in *. lia.
+  - unfold required_size_scmp in H.
+    destruct (required_size_scmp_msg 256 b) as [m|e|s] eqn:E; [|destruct e; discriminate|discriminate].
+    unfold required_size_scmp_msg in E. inv_bind E. inversion E; subst. clean_bools.
+    change (scmp_header_size 256) with 8 in *. change (scmp_fixed_size 256) with false in *. cbn iota in *.
+    inv_bind H. unfold required_size_scmp_msg in H. inv_bind H. inversion H; subst. clean_bools.
+    destruct (scmp_fixed_size a0) eqn:F; [|lia].
+    unfold scmp_fixed_size in F. apply Bool.orb_true_iff in F. destruct F as [F|F]; apply N.eqb_eq in F; subst a0; vm_compute; discriminate.
+  - unfold required_size_scmp_msg in H. inv_bind H. inversion H; subst. clean_bools. destruct (scmp_fixed_size ty); lia.
+Qed.
+
+(** the accessors that read one bit range at a fixed offset: (view kind, accessor id, range, bits) *)
+Definition fixed_accessors : list (vkind * N * rng * N) :=
+  [ (KHeader, 0, CommonHeader_VERSION_RNG, 8); (KHeader, 1, CommonHeader_TRAFFIC_CLASS_RNG, 8);
+    (KHeader, 2, CommonHeader_FLOW_ID_RNG, 32); (KHeader, 3, CommonHeader_NEXT_HEADER_RNG, 8);
+    (KHeader, 4, CommonHeader_PAYLOAD_LEN_RNG, 16); (KHeader, 6, CommonHeader_PATH_TYPE_RNG, 8);
+    (KHeader, 7, CommonHeader_DST_ADDR_INFO_RNG, 8); (KHeader, 8, CommonHeader_SRC_ADDR_INFO_RNG, 8);
+    (KHeader, 9, rshift AddressHeader_DST_ISD_RNG CommonHeader_SIZE_BYTES, 16);
+    (KHeader, 10, rshift AddressHeader_DST_AS_RNG CommonHeader_SIZE_BYTES, 64);
+    (KHeader, 11, rshift AddressHeader_SRC_ISD_RNG CommonHeader_SIZE_BYTES, 16);
+    (KHeader, 12, rshift AddressHeader_SRC_AS_RNG CommonHeader_SIZE_BYTES, 64);
+    (KHeader, 13, rshift AddressHeader_DST_IA_RNG CommonHeader_SIZE_BYTES, 64);
+    (KHeader, 14, rshift AddressHeader_SRC_IA_RNG CommonHeader_SIZE_BYTES, 64);
+    (KStdPath, 0, StdPathMeta_CURR_INFO_FIELD_RNG, 8); (KStdPath, 1, StdPathMeta_CURR_HOP_FIELD_RNG, 8);
+    (KStdPath, 2, StdPathMeta_SEG0_LEN_RNG, 8); (KStdPath, 3, StdPathMeta_SEG1_LEN_RNG, 8); (KStdPath, 4, StdPathMeta_SEG2_LEN_RNG, 8);
+    (KInfo, 0, InfoField_FLAGS_RNG, 8); (KInfo, 1, InfoField_SEGMENT_ID_RNG, 16); (KInfo, 2, InfoField_TIMESTAMP_RNG, 32);
+    (KHop, 0, HopField_FLAGS_RNG, 8); (KHop, 1, HopField_EXP_TIME_RNG, 8); (KHop, 2, HopField_CONS_INGRESS_RNG, 16);
+    (KHop, 3, HopField_CONS_EGRESS_RNG, 16);
+    (KUdp, 0, UdpDatagram_SRC_PORT_RNG, 16); (KUdp, 1, UdpDatagram_DST_PORT_RNG, 16); (KUdp, 2, UdpDatagram_LENGTH_RNG, 16);
+    (KUdp, 3, UdpDatagram_CHECKSUM_RNG, 16);
+    (KScmp, 0, ScmpUnknownMessage_TYPE_RNG, 8); (KScmp, 1, ScmpUnknownMessage_CODE_RNG, 8); (KScmp, 2, ScmpUnknownMessage_CHECKSUM_RNG, 16) ].
+
+Lemma fixed_accessors_fit :
+  forallb (fun '(k, _, r, _) => (size_bytes r <=? LANE_BYTES) && (byte_hi r <=? min_size k)) fixed_accessors = true.
+Proof. vm_compute. reflexivity. Qed.
+
+Lemma fixed_accessors_are_reads k id r bits arg v :
+  In (k, id, r, bits) fixed_accessors -> run_acc k id arg v = vn (rd v r bits).
+Proof.
+  unfold fixed_accessors. intros H.
+  repeat (destruct H as [H|H]; [inversion H; subst; reflexivity|]). destruct H.
+Qed.
+
+Lemma fixed_accessor_in_bounds k id r bits arg b n :
+  In (k, id, r, bits) fixed_accessors -> required_size k b = Ok n -> is_panic (run_acc k id arg (sub b 0 n)) = false.
+Proof.
+  intros Hin Hs. rewrite (fixed_accessors_are_reads k id r bits arg _ Hin).
+  pose proof fixed_accessors_fit as F. rewrite forallb_forall in F. specialize (F _ Hin). cbn beta iota in F.
+  apply Bool.andb_true_iff in F. destruct F as [F1 F2]. apply N.leb_le in F1. apply N.leb_le in F2.
+  pose proof (required_size_min k b n Hs) as M. pose proof (required_size_sound_all k b n Hs) as L.
+  unfold vn. rewrite rd_ok; [reflexivity|exact F1|]. rewrite blen_sub by exact L. lia.
+Qed.
+
+(** the typed SCMP message views: every header field of the view's own type *)
+Lemma scmp_fields_fit :
+  forallb (fun ty => forallb (fun '(r, _) => (size_bytes r <=? LANE_BYTES) && (byte_hi r <=? scmp_header_size ty)) (scmp_fields ty))
+          (256 :: scmp_type_known) = true.
+Proof. vm_compute. reflexivity. Qed.
+
+(** * safe mutators never change the extent of the view *)
+Lemma wr_length v r val v' : wr v r val = Ok v' -> length v' = length v.
+Proof.
+  unfold wr. destruct (negb (size_bytes r <=? LANE_BYTES)); [discriminate|].
+  destruct (byte_hi r <=? blen v) eqn:B; cbn [negb]; [|discriminate].
+  intros H; inversion H; subst. apply lane_write_length. apply N.leb_le. exact B.
+Qed.
+
+Lemma splice_length v lo x : (N.to_nat lo + length x <= length v)%nat -> length (splice v lo x) = length v.
+Proof. intros H. unfold splice. rewrite !app_length, firstn_length, skipn_length. lia. Qed.
+
+Lemma get_unchecked_some v lo hi x : get_unchecked v lo hi = Ok x -> x = sub v lo hi /\ lo <= hi /\ hi <= blen v.
+Proof.
+  unfold get_unchecked. destruct ((lo <=? hi) && (hi <=? blen v)) eqn:C; [|discriminate].
+  intros H; inversion H; subst. apply Bool.andb_true_iff in C. destruct C as [A B].
+  apply N.leb_le in A. apply N.leb_le in B. auto.
+Qed.
+
+Lemma sub_length v lo hi : lo <= hi -> hi <= blen v -> length (sub v lo hi) = N.to_nat (hi - lo).
+Proof. intros H1 H2. unfold sub, blen in *. rewrite firstn_length, skipn_length. lia. Qed.
+
+Lemma in_sub_length v r f v' :
+  (forall x y, f x = Ok y -> length y = length x) -> in_sub v r f = Ok v' -> length v' = length v.
+Proof.
+  intros Hf H. unfold in_sub in H. inv_bind H. inversion H; subst; clear H.
+  apply get_unchecked_some in E. destruct E as (-> & H1 & H2).
+  apply Hf in E0. rewrite sub_length in E0 by assumption.
+  apply splice_length. unfold blen in *. lia.
+Qed.
+
+Lemma poke_length v r arg val v' : snd r <= blen v -> poke v r arg val = Ok v' -> length v' = length v.
+Proof.
+  intros Hr. unfold poke. destruct (fst r + arg <? snd r) eqn:C; intros H; inversion H; subst; [|reflexivity].
+  apply N.ltb_lt in C. apply splice_length. cbn [length]. unfold blen in *. lia.
+Qed.
+
+Ltac split_id H :=
+  repeat match type of H with
+  | context [match ?x with _ => _ end] => is_var x; destruct x
+  end.
+
+Lemma mut_info_length id val v v' : mut_info id val v = Ok v' -> length v' = length v.
+Proof.
+  unfold mut_info. intros H. split_id H; first [eapply wr_length; eassumption | (inversion H; reflexivity)].
+Qed.
+
+Lemma mut_hop_length id val v v' : mut_hop id val v = Ok v' -> length v' = length v.
+Proof.
+  unfold mut_hop. intros H. split_id H;
+    first [ eapply wr_length; eassumption | (inversion H; reflexivity) | idtac ].
+  inv_bind H. inversion H; subst. apply get_unchecked_some in E. destruct E as (_ & _ & E).
+  apply splice_length. rewrite be_bytes_length. unfold blen in E.
+  change (byte_hi HopField_MAC_RNG) with 12 in E. change (N.to_nat (byte_lo HopField_MAC_RNG)) with 6%nat. lia.
+Qed.
+
+Lemma mut_stdpath_length id arg val v v' : mut_stdpath id arg val v = Ok v' -> length v' = length v.
+Proof.
+  unfold mut_stdpath. intros H. split_id H;
+    try solve [eapply wr_length; eassumption];
+    repeat match type of H with (if ?c then _ else _) = _ => destruct c end;
+    try solve [inversion H; reflexivity];
+    inv_bind H; try solve [inversion H; reflexivity];
+    (eapply in_sub_length; [|eassumption]); intros x y Hxy; first [eapply mut_info_length; eassumption | eapply mut_hop_length; eassumption].
+Qed.
+
+Lemma mut_onehop_length id val v v' : mut_onehop id val v = Ok v' -> length v' = length v.
+Proof.
+  unfold mut_onehop. intros H.
+  repeat match type of H with (if ?c then _ else _) = _ => destruct c end;
+    try solve [inversion H; reflexivity];
+    inv_bind H; (eapply in_sub_length; [|eassumption]); intros x y Hxy;
+    first [eapply mut_info_length; eassumption | eapply mut_hop_length; eassumption].
+Qed.
+
+Lemma mut_header_length id arg val v v' : mut_header id arg val v = Ok v' -> length v' = length v.
+Proof.
+  unfold mut_header. intros H. split_id H;
+    try solve [eapply wr_length; eassumption];
+    repeat match type of H with (if ?c then _ else _) = _ => destruct c end;
+    try solve [inversion H; reflexivity];
+    inv_bind H;
+    repeat match type of H with (if ?c then _ else _) = _ => destruct c end;
+    try solve [inversion H; reflexivity];
+    (eapply in_sub_length; [|eassumption]); intros x y Hxy;
+    first [eapply mut_stdpath_length; eassumption | eapply mut_onehop_length; eassumption].
+Qed.
